@@ -10,7 +10,7 @@ PER_FILE = 60
 CASE_TIMEOUT = 20
 RULE = ('a case = a publication history (1-8 partial float series over 6 or 12-20 observation dates, stamps drawn from 5 days, '
         'observation dates a year before the stamps, around them, or after them (forward-looking data: forecasts published before their observation date), values repeating / reverting / NaN / +-inf, int or float dtype, several versions sharing a stamp, dates that first appear late, a version without rows, named index / named Series, '
-        'frames of several hundred rows; stamps at midnight or with a time of day down to the microsecond, spelled as datetime / date / Timestamp / datetime64 / ISO string), merged in order - one version per call or several versions in one call - with '
+        'frames of several hundred rows; stamps at midnight or with a time of day down to the microsecond, spelled as datetime / date / Timestamp / datetime64 / ISO string with space or T separator (sub-second part included) / yyyymmdd int; 12 % of histories timezone-aware, one zone for stamps and reads), merged in order - one version per call or several versions in one call - with '
         'bi_merge(store, Bi(series, stamp)) - the five stamps are consecutive days in 2021, or lie in 2100-2105 (after the machine clock), or a mix of both - then read with bi_read at every time before / between (12 h or one microsecond off a stamp) / on / after the stamps (asof spelled as datetime / date / Timestamp / datetime64) and with '
         'asof=None, what in {-1, 0}; optionally one version is merged once more and all reads are repeated. Half of the histories grow the '
         'frame beyond 16 rows (where pandas switches sort algorithm). Compared in Coq with M_bitemp: every read (dates in order, values, NaN) '
@@ -57,8 +57,11 @@ DEFAULT_CAL = [0, 1, 2, 3, 4]
 US = datetime.timedelta(microseconds=1)
 INF = 10 ** 9          # the model's stand-in for float('inf') (values are carried, never computed)
 
+TZ = {'utc': datetime.timezone.utc, '+0530': datetime.timezone(datetime.timedelta(hours=5, minutes=30)), '-0800': datetime.timezone(datetime.timedelta(hours=-8))}
 def stamp_dt(case, s):
-    return S0 + DAY * case.get('cal', DEFAULT_CAL)[s] + US * case.get('tod', [0] * 5)[s]
+    """'tz' (optional): every stamp and every read time is timezone-aware, all in that one zone"""
+    t = S0 + DAY * case.get('cal', DEFAULT_CAL)[s] + US * case.get('tod', [0] * 5)[s]
+    return t.replace(tzinfo=TZ[case['tz']]) if case.get('tz') else t
 def asof_dt(case, t2):
     """read time in half-steps: 2s = on stamp s, 2s+1 = strictly between stamp s and s+1, negative = before every stamp, > 9 = after all"""
     if t2 is None: return None
@@ -75,7 +78,9 @@ def spell(t, form):
     if form == 'ts': return pd.Timestamp(t)
     if form == 'dt64': return np.datetime64(t)
     if form == 'str': return t.isoformat(sep=' ')
-    if form == 'date': return t.date() if t == datetime.datetime(t.year, t.month, t.day) else t
+    if form == 'iso': return t.isoformat()                 # 'YYYY-MM-DDTHH:MM:SS[.ffffff]' as dt2str / encode write it
+    if form == 'int': return t.year * 10000 + t.month * 100 + t.day if (t == datetime.datetime(t.year, t.month, t.day) and t.tzinfo is None) else t
+    if form == 'date': return t.date() if (t.tzinfo is None and t == datetime.datetime(t.year, t.month, t.day)) else t
     raise ValueError(form)
 
 # ---------------- Coq side
@@ -279,7 +284,7 @@ def date_era(case):
     """where the observation dates lie relative to the five stamps"""
     ds = [d for _, rows in case['hist'] for d, _ in rows] or [0]
     lo, hi = obs_date(case, min(ds)), obs_date(case, max(ds))
-    s0, s4 = stamp_dt(case, 0), stamp_dt(case, 4)
+    s0, s4 = stamp_dt(case, 0).replace(tzinfo=None), stamp_dt(case, 4).replace(tzinfo=None)
     return 'before' if hi < s0 else 'after' if lo > s4 else 'around'
 
 def shape(case):
@@ -289,7 +294,7 @@ def shape(case):
     h = case['hist']
     ordered = all(h[i][0] <= h[i + 1][0] for i in range(len(h) - 1))
     extras = (':dates=%s' % date_era(case)) + (':cols' if case.get('cols') else '') + ''.join(':%s=%s' % (k, case[k]) for k in ('work', 'pub', 'input') if case.get(k)) + ''.join(':' + k for k in ('tod', 'groups', 'index_name', 'series_name', 'int_dtype') if case.get(k)) + \
-             ''.join(':%s=%s' % (k, case[k]) for k in ('eps', 'stamp_form', 'asof_form') if case.get(k))
+             ''.join(':%s=%s' % (k, case[k]) for k in ('eps', 'stamp_form', 'asof_form', 'tz') if case.get(k))
     vals = {v for _, rows in h for _, v in rows}
     return '%s:%s:v%d:%s%s%s%s%s' % (era, 'ordered' if ordered else 'unordered', len(h), 'rows>100' if n > 100 else 'rows>16' if n > 16 else 'rows<=16',
                                    ':again' if case.get('again') is not None else '', ':inf' if ('inf' in vals or '-inf' in vals) else '',
@@ -380,10 +385,15 @@ def decorate(rng, case, work=False):
         case['eps'] = rng.choice(['+us', '-us'])
     elif rng.random() < 0.3:
         case['eps'] = rng.choice(['+us', '-us'])
-    if rng.random() < 0.4:
-        case['stamp_form'] = rng.choice(['ts', 'dt64', 'str', 'date'])
-    if rng.random() < 0.4:
-        case['asof_form'] = rng.choice(['ts', 'dt64', 'date'])
+    if rng.random() < 0.12:       # timezone-aware stamps and read times, one zone per history
+        case['tz'] = rng.choice(['utc', '+0530', '-0800'])
+        if rng.random() < 0.5: case['stamp_form'] = 'ts'
+        if rng.random() < 0.5: case['asof_form'] = 'ts'
+    else:
+        if rng.random() < 0.5:    # every spelling dt() accepts
+            case['stamp_form'] = rng.choice(['ts', 'dt64', 'str', 'iso', 'iso', 'date', 'int'])
+        if rng.random() < 0.4:
+            case['asof_form'] = rng.choice(['ts', 'dt64', 'date'])
     if rng.random() < 0.25:
         case['index_name'] = rng.choice(['date', 'index', 'updated_on'])
     if work:
@@ -416,7 +426,7 @@ def shrink(case):
         yield dict(case, again=None)
     if case.get('groups'):
         yield {k: v for k, v in case.items() if k != 'groups'}
-    for k in ('tod', 'eps', 'stamp_form', 'asof_form', 'index_name', 'series_name', 'int_dtype', 'cal', 'dshift', 'cols'):
+    for k in ('tod', 'eps', 'stamp_form', 'asof_form', 'index_name', 'series_name', 'int_dtype', 'cal', 'dshift', 'cols', 'tz'):
         if case.get(k) is not None:
             yield {kk: v for kk, v in case.items() if kk != k}
     for i in range(len(h)):
